@@ -16,6 +16,6 @@ CFG = {
         "the deprecated v1->v2 key-migration branch of StartProposal (finished epoch-1 record with nil signatures, only produced by MigrateFromGroupfile) is not modelled",
         "DBState.TimedOut() is modelled as a method but has no caller in the process (no event produces state TimedOut)",
     ],
-    "level_text": "For ALL histories of operator commands, gossip packets and execution outcomes (valid or not, any sender, arbitrary clock) over a model of state_machine.go / actions_active.go / actions_passive.go / execution.go / store.go whose transition relation is regenerated from isValidStateChange on every run: C08_legal (every change of current.State is an edge of the table, composed with the fallback to the finished record or Fresh), C08_finished_monotone / C08_finished_is_output (the finished record changes only when an execution completes from Executing, to a strictly larger epoch, and stores exactly that execution's group and share), C08_rejected_unchanged / C08_rejected_keeps_finished / C08_terminal_keeps_finished, C08_retry (a terminal current state is equivalent to the last completed state for every later event, and a well-formed proposal at finished.Epoch+1 is accepted), fourteen C08_reject_* rules with the state class in which the code applies each, C08_epoch_monotone_members. The all-nodes clause 'the epoch never decreases' is refuted by the model (C08_epoch_refuted: fresh node, epoch 7 -> abort -> epoch 3) and proved with the carve-out spelled out (C08_epoch_partial); the Left-state nil dereference is C08_left_panics. The model is compared with the real dkg.Process (real bolt store, real keys/signatures, real kyber runs) on generated histories on every run.",
-    "level_note": "Kernel + vm_compute; no axioms. Two save-then-fail paths of the code (proposal command stored then gossip fails; Execute stored then kyber set-up fails) change the current bucket although an error is returned; they are named in C08_rejected_unchanged. Known witnesses replayed on the real code: C08-fresh-node-epoch-decreases, C08-left-state-proposal-panics, C08-nil-leader-proposal-panics.",
+    "level_text": "For ALL histories of operator commands, gossip packets and execution outcomes (valid or not, any sender, arbitrary clock) over a model of state_machine.go / actions_active.go / actions_passive.go / execution.go / store.go whose transition relation is regenerated from isValidStateChange on every run: C08_legal (every change of current.State is an edge of the table, composed with the fallback to the finished record or Fresh), C08_finished_monotone / C08_finished_is_output (the finished record changes only when an execution completes from Executing, to a strictly larger epoch, and stores exactly that execution's group and share), C08_rejected_unchanged / C08_rejected_keeps_finished / C08_terminal_keeps_finished, C08_retry (a terminal current state is equivalent to the last completed state for every later event, and a well-formed proposal at finished.Epoch+1 is accepted), fourteen C08_reject_* rules with the state class in which the code applies each, C08_epoch_monotone_members. The all-nodes clause 'the epoch never decreases' is refuted by the model (C08_epoch_refuted: fresh node, epoch 7 -> abort -> epoch 3) and proved with the carve-out spelled out (C08_epoch_partial); a node in state Left without a group refuses proposals with an error (C08_reject_no_previous_group; it used to dereference nil), and so does a proposal without a leader (C08_reject_no_leader). The model is compared with the real dkg.Process (real bolt store, real keys/signatures, real kyber runs) on generated histories on every run.",
+    "level_note": "Kernel + vm_compute; no axioms. Two save-then-fail paths of the code (proposal command stored then gossip fails; Execute stored then kyber set-up fails) change the current bucket although an error is returned; they are named in C08_rejected_unchanged. Known witnesses replayed on the real code: C08-fresh-node-epoch-decreases, C08-member-epoch-decreases. Fixed and kept as regression cases: C08-left-state-proposal-panics, C08-nil-leader-proposal-panics.",
 }
